@@ -273,6 +273,8 @@ impl<'a> Run<'a> {
         if self.updated.read().contains(module.as_ref()) {
             return
         }
+        #[cfg(routinator_verif)]
+        crate::verif::preempt("rsync-after-first-check");
 
         // Get a clone of the (arc-ed) mutex. Make a new one if there isn’t
         // yet.
@@ -281,10 +283,14 @@ impl<'a> Run<'a> {
             .entry(module.clone().into_owned()).or_default()
             .clone()
         };
+        #[cfg(routinator_verif)]
+        crate::verif::preempt("rsync-after-mutex-clone");
         
         // Acquire the mutex. Once we have it, see if the module is up-to-date
         // which happens if someone else had it first.
         let _lock = mutex.lock();
+        #[cfg(routinator_verif)]
+        crate::verif::preempt("rsync-after-lock");
         if self.updated.read().contains(module.as_ref()) {
             return
         }
@@ -315,9 +321,13 @@ impl<'a> Run<'a> {
 
         // Remove from running.
         self.running.write().remove(module.as_ref());
+        #[cfg(routinator_verif)]
+        crate::verif::preempt("rsync-between-bookkeeping");
 
         // Insert into updated map no matter what.
         self.updated.write().insert(module.into_owned());
+        #[cfg(routinator_verif)]
+        crate::verif::preempt("rsync-after-bookkeeping");
     }
 
     /// Loads the file for the given URI.
